@@ -157,6 +157,15 @@ Proof. vm_compute. reflexivity. Qed.
     Ownership / recycling (model: Model/CmdOwnership.v — the life of one command inside Do / DoMulti /
     DoCache of the single, cluster and sentinel clients, with the PutCompleted decision transcribed). *)
 
+(** PARTIAL with respect to the property text ("never modifies or recycles a command before it has been
+    completely written to the server"): the theorems below are complete for the model, i.e. for the clients'
+    retry / redirect loops and their PutCompleted decision, over all attempt sequences and cancellation points.
+    What the model takes from the pipeline (not proved here; it belongs to the pipe/ring family and is tied there
+    by wire observation): (a) a reply for a command implies the command was written completely; (b) a transport
+    error is handed to a caller only after that pipe's writer goroutine has stopped; (c) the pipe itself never
+    modifies a queued command.  obs_recycle checks the decision and, on the wire, that an abandoned command still
+    reaches the server intact. *)
+
 (** A command's slice is returned to the pool only after the attempt that used it has ended with a
     reply and no transport error (so the writer is done with it), or when it was never queued;
     a pinned command is never recycled.  For every client kind, every sequence of attempts
